@@ -578,12 +578,10 @@ func (p *Prog) emissionCallees() map[*ssa.Function]bool {
 			if !usedAsWidth {
 				continue
 			}
+			// statically resolved calls only: a call through an interface or a type parameter resolves to every
+			// fill method in the package, the packet encoders (which return an end position) among them
 			if sc := e.call.Call.StaticCallee(); sc != nil {
 				out[sc] = true
-			} else if callees, _ := p.CG().Callees(e.call); len(callees) > 0 {
-				for _, cal := range callees {
-					out[cal] = true
-				}
 			}
 		}
 	}
